@@ -38,7 +38,7 @@ ASSUMPTIONS = [
     "LMDB backend over /verif/shim; SQL = SQLite",
 ]
 MIN_NONTRIVIAL = {"quick": 1500, "thorough": 15000}
-REQUIRED_COUNTERS = ["probe.same_connection", "probe.neighbour_push", "probe.neighbour_req", "leak_checks", "frames", "stalled.publishes", "stalled.late_connections"]
+REQUIRED_COUNTERS = ["probe.same_connection", "probe.neighbour_push", "probe.neighbour_req", "probe.neighbour_tag_req", "leak_checks", "frames", "stalled.publishes", "stalled.late_connections"]
 SHARD_TIMEOUT = {"quick": 600, "thorough": 3200}
 
 
@@ -165,7 +165,9 @@ def hostile_frames(r, key, known_id, tier, count):
 
     hostile_tags = [[["p", ["nested"]]], [["p", 5]], [["e", None]], [["p", {"a": 1}]], [["t", 1.5]], [["p", True]], [["e", []]], [["p", "a"], ["p", ["a"]]],
                     [["e", "x" * 5000]], [["p", "\x00"]], [["d"]], [["p"]], [["expiration", "abc"]], [["expiration", []]], [["delegation", "x", "y", "z"]],
-                    [["e", "zz"]], [["p", "a", ["third"]]], [["e", 2 ** 63]], [["e", -1]]]
+                    [["e", "zz"]], [["p", "a", ["third"]]], [["e", 2 ** 63]], [["e", -1]],
+                    # values that extend a value other clients ask for, across the index's own separator
+                    [["t", "q\x00zz"]], [["t", "q\x00"]], [["t", "q\x00\xff\xff"]], [["t", "q\x00e\x00"]], [["t", "q" * 300]], [["t", ""]], [["p", "a\x00z"]]]
     for i, tags in enumerate(hostile_tags):
         for kind in (1, 5, 30000):
             ev = ref.make_event(key, kind=kind, created_at=gen.T0 + 50 + i, tags=tags, content="signed-hostile %d" % i)
@@ -214,6 +216,8 @@ async def run_case(backend, cfgname, frames, counters, seed):
         pub = rig.connect("pub")
         known = ref.make_event(key, kind=1, created_at=gen.T0 - 5, content="known")
         await pub.cmd(["EVENT", known])
+        tagged = ref.make_event(key, kind=1, created_at=gen.T0 - 4, tags=[["t", "q"], ["p", "a"]], content="tagged")
+        await pub.cmd(["EVENT", tagged])
         neigh = rig.connect("neighbour", rate_limiter=limiter)
         await neigh.cmd(["REQ", "n", {"kinds": [1], "since": gen.T0 + 1000}])
         # a second subscription whose tag conditions make live matching look INTO hostile events
@@ -294,6 +298,24 @@ async def run_case(backend, cfgname, frames, counters, seed):
                 if neigh.exited:
                     neigh = rig.connect("neighbour%d" % batch_no, rate_limiter=limiter)
                     await neigh.cmd(["REQ", "n", {"kinds": [1], "since": gen.T0 + 1000}])
+            if not neigh.exited:
+                # an ordinary tag query of somebody else, for values that hostile events may have extended
+                bump(probe, "neighbour_tag_req")
+                m0 = rig.rec.n
+                await neigh.cmd(["REQ", "nq", {"#t": ["q"]}, {"#p": ["a"], "limit": 3}])
+                t0 = asyncio.get_running_loop().time()
+                while asyncio.get_running_loop().time() - t0 < 20:
+                    got = [f for n, f in neigh.parsed_frames(m0) if isinstance(f, list)]
+                    if any(f[0] == "EOSE" and f[1] == "nq" for f in got if len(f) > 1) or neigh.exited:
+                        break
+                    await asyncio.sleep(0.01)
+                if not any(f[0] == "EOSE" and f[1] == "nq" for f in got if len(f) > 1):
+                    rig.abandon = True
+                    viols.append({"key": "neighbour-tag-query-unanswered", "msg": "[%s/%s] after %s an ordinary tag REQ of another connection got no EOSE within 20 s" % (backend, cfgname, [l for l, _ in sent][-3:]), "replay": rp})
+                    return viols, nontrivial, samples
+                if not any(f[0] == "EVENT" and f[1] == "nq" and f[2].get("id") == tagged["id"] for f in got if len(f) > 2):
+                    viols.append({"key": "neighbour-tag-query-incomplete", "msg": "[%s/%s] after %s the tag REQ of another connection no longer returns the stored event tagged t=q" % (backend, cfgname, [l for l, _ in sent][-3:]), "replay": rp})
+                await neigh.cmd(["CLOSE", "nq"])
             if batch_no % 5 == 0 and not neigh.exited:
                 bump(probe, "neighbour_req")
                 m0 = rig.rec.n
